@@ -268,7 +268,8 @@ def life_spec(name, tags, what, **P):
     P = dict(P)
     P['tags'] = list(tags)
     P.setdefault('xval_stride', 53)
-    return Spec(name, 'checks.life', 'run_life', P, what=what)
+    expect = tuple(P.pop('must_reach', ()))
+    return Spec(name, 'checks.life', 'run_life', P, what=what, expect_classes=expect)
 
 
 def c08(tier):
@@ -432,6 +433,22 @@ def c13(tier):
                                server=dict(kind='grammar', K=2, alphabet=['text', 'ping', 'close']), connect=dict(poll=0.0), abandon_mechanism=mech,
                                record_selector=True, app=dict(actions=['abandon'], max_actions=1),
                                fault=dict(ops=['shutdown'], kinds=['oserror'], max=1)))
+    for mech in ['break', 'gen.close', 'with']:
+        specs.append(life_spec('abandon-%s-timers' % mech.replace('.', '-'), tags,
+                               'ping_timeout, ping_rate and close_timeout armed on a virtual clock, the server sends <=2 frames from {Text, Pong} and then '
+                               'stays silent: the application abandons at a solver-chosen event, among them Unresponsive and the Polls/Pongs '
+                               'around it, optionally after close()',
+                               server=dict(kind='grammar', K=2, alphabet=['text', 'pong']), end='silence', silent_waits=10 ** 6,
+                               connect=dict(poll=1.0, ping_rate=1.0, ping_timeout=3.0, close_timeout=2.0), abandon_mechanism=mech,
+                               record_selector=True, app=dict(actions=['abandon', 'close'], max_actions=2), max_waits=30,
+                               must_reach=['abandon@unresponsive']))
+    for mech in ['break', 'gen.close']:
+        specs.append(life_spec('abandon-%s-bad-streams' % mech.replace('.', '-'), tags,
+                               'handshake variant (valid/200/no-upgrade/wrong-accept/garbage/oversize) x 2 raw symbolic frame bytes (protocol errors) x '
+                               'transport end: the application abandons at a solver-chosen event, among them Rejected and ProtocolError',
+                               server=dict(kind='raw', N=2), handshake='sym', end='sym', ends=['eof', 'error'], abandon_mechanism=mech,
+                               record_selector=True, app=dict(actions=['abandon'], max_actions=1), max_waits=40,
+                               must_reach=['abandon@rejected', 'abandon@protocol_error']))
     specs.append(sched_spec('abandon-while-sending', tags, [['loop'], ['send_text']], 2,
                             'thread 1 runs the real event loop and abandons it (generator.close()) at the first Poll after Ready while thread 2 is anywhere '
                             'inside send_text - also in the middle of its sendall, holding the write lock (deterministic scheduler, schedule = solver variables): '
